@@ -16,7 +16,7 @@ from rtc import util
 import liesel.model as lsl
 
 
-def build(rng, seeded=False, grouped=True):
+def build(rng, seeded=False, grouped=True, auto=False):
     a = lsl.param(np.float32(rng.normal()), lsl.Dist(tfd.Normal, loc=0.0, scale=2.0), name="a")
     shared = lsl.Calc(lambda x: jnp.asarray(x) * 2.0, a)  # unnamed, shared
     left = lsl.Var(lsl.Calc(lambda s: jnp.asarray(s) + 1.0, shared), name="left")
@@ -25,7 +25,13 @@ def build(rng, seeded=False, grouped=True):
     if seeded:
         noisy = lsl.Calc(lambda s, seed: s + 0.0 * jax.random.normal(seed), shared, _name="noisy", _needs_seed=True)
         nodes.append(noisy)
-    y = lsl.obs(jnp.asarray(rng.normal(size=3), jnp.float32), lsl.Dist(tfd.Normal, loc=left, scale=lsl.Calc(jnp.exp, right)), name="y")
+    yvals = jnp.asarray(rng.normal(size=3), jnp.float32)
+    if auto:  # a positive parameter that build_model re-parameterises automatically (auto_transform)
+        sc = lsl.param(np.float32(1.3), lsl.Dist(tfd.InverseGamma, concentration=2.0, scale=1.0), name="sc")
+        sc.auto_transform = True
+        y = lsl.obs(yvals, lsl.Dist(tfd.Normal, loc=left, scale=lsl.Calc(lambda r, s_: jnp.exp(r) * s_, right, sc)), name="y")
+    else:
+        y = lsl.obs(yvals, lsl.Dist(tfd.Normal, loc=left, scale=lsl.Calc(jnp.exp, right)), name="y")
     gb = lsl.GraphBuilder().add(y, *nodes)
     if grouped:
         gb.add_groups(lsl.Group("grp", a=a, left=left))
@@ -61,18 +67,18 @@ def structure_ok(m):
     return None
 
 
-def case(col, rng, how, seeded):
-    inp = {"round_trip": how, "seeded_node": seeded}
+def case(col, rng, how, seeded, auto=False):
+    inp = {"round_trip": how, "seeded_node": seeded, "auto_transformed_parameter": auto}
     seed0 = int(rng.integers(0, 1000))
     r1 = np.random.default_rng(seed0)
-    orig = build(r1, seeded)
+    orig = build(r1, seeded, auto=auto)
     ref = snapshot(orig)
     bad = structure_ok(orig)
     try:
         if how == "pop_rebuild":
             nodes, vars_ = orig.pop_nodes_and_vars()
             new = lsl.GraphBuilder().add(*nodes.values(), *vars_.values()).build_model()
-            other = build(np.random.default_rng(seed0), seeded)
+            other = build(np.random.default_rng(seed0), seeded, auto=auto)
         elif how == "copy_nodes_rebuild":
             nodes, vars_ = orig.copy_nodes_and_vars()
             new = lsl.GraphBuilder().add(*nodes.values(), *vars_.values()).build_model()
@@ -84,10 +90,13 @@ def case(col, rng, how, seeded):
             r2 = np.random.default_rng(seed0)
             a = lsl.param(np.float32(r2.normal()), lsl.Dist(tfd.Normal, loc=0.0, scale=2.0), name="a")
             gb = lsl.GraphBuilder().add(a)
+            if auto:
+                a.auto_transform = True
             new = gb.build_model(copy=True)
             new2 = gb.build_model(copy=True)
-            new.vars["a"].value = np.float32(5.0)
-            ok = float(new2.vars["a"].value) != 5.0 and a.model is None
+            tgt = "a_transformed" if auto else "a"
+            new.vars[tgt].value = np.float32(5.0)
+            ok = float(new2.vars[tgt].value) != 5.0 and a.model is None and list(new.vars) == list(new2.vars)
             col.add(None if ok else {"sig": "native::roundtrip::copy_true", "what": "copy=True models are not independent of the builder's nodes", "input": inp})
             return
         else:
@@ -327,6 +336,9 @@ def bounded(tier, seed):
                     continue
                 case(col, rng, how, seeded)
                 n += 1
+    for how in hows:  # the same round trips with a parameter that build_model re-parameterises automatically
+        case(col, rng, how, False, auto=True)
+        n += 1
     mutation_case(col, rng)
     try:
         # "orders updates topologically" for the targeted update too: scripted histories of rtc.c01 on a graph with two paths of different length
